@@ -258,3 +258,116 @@ Proof.
     rewrite (lookup_filter_other k' (fun x => negb (str_eqb x k || false))) by (now rewrite E').
     simpl. rewrite E. now destruct (lookup k' (parse_query_lenient raw)).
 Qed.
+
+(* ---------- net/url reference resolution on the link forms registries use ---------- *)
+
+Definition printable (c : N) : bool := (33 <=? c) && (c <=? 126).
+
+Definition seg_ok (s : str) : Prop :=
+  (exists ch t, s = ch :: t /\ (ch =? c_sl) = false) /\ contains c_sl s = false /\ s <> dot /\ s <> dotdot.
+
+(* P = "/" ++ segments joined by "/": no empty, "." or ".." segment *)
+Definition clean_path (P : str) (segs : list str) : Prop :=
+  segs <> [] /\ Forall seg_ok segs /\ P = c_sl :: join [c_sl] segs.
+
+Lemma seg_ok_not_dots s : seg_ok s -> str_eqb s dot = false /\ str_eqb s dotdot = false.
+Proof. intros (_ & _ & A & B). split; apply str_eqb_neq; assumption. Qed.
+
+Lemma fold_seg_plain segs acc :
+  Forall seg_ok segs -> fold_left seg_step segs acc = acc ++ segs.
+Proof.
+  revert acc. induction segs as [|s l IH]; intros acc H; simpl; [now rewrite app_nil_r|].
+  inversion H as [|? ? Hs Hl]; subst. destruct (seg_ok_not_dots s Hs) as [A B].
+  unfold seg_step at 2. rewrite A, B. rewrite IH by exact Hl. now rewrite <- app_assoc.
+Qed.
+
+Lemma last_cons_ne {A} (x : A) l d : l <> [] -> last (x :: l) d = last l d.
+Proof. destruct l; [contradiction|reflexivity]. Qed.
+
+Lemma last_in {A} (l : list A) d : l <> [] -> In (last l d) l.
+Proof.
+  induction l as [|x l IH]; [contradiction|]. intros _. destruct l as [|y l]; [now left|].
+  right. apply IH. discriminate.
+Qed.
+
+Lemma clean_path_split P segs : clean_path P segs -> split_on c_sl P = [] :: segs.
+Proof.
+  intros (Hne & HF & ->). cbn [split_on]. change (c_sl =? c_sl) with true. cbv iota. f_equal.
+  apply split_on_join; [exact Hne|]. clear Hne. induction HF as [|s l (_ & A & _) _ IH]; constructor; assumption.
+Qed.
+
+Lemma clean_path_head P segs :
+  clean_path P segs -> exists ch t, P = c_sl :: ch :: t /\ (ch =? c_sl) = false.
+Proof.
+  intros (Hne & HF & ->). destruct segs as [|s l]; [contradiction|].
+  inversion HF as [|? ? ((ch & t & -> & Hc) & _) _]; subst.
+  destruct l; simpl; eauto.
+Qed.
+
+(* a clean path is a fixed point of net/url's dot-segment removal *)
+Lemma resolve_path_clean P segs : clean_path P segs -> resolve_path P [] = P.
+Proof.
+  intro C. pose proof (clean_path_split P segs C) as S. destruct C as (Hne & HF & EP).
+  unfold resolve_path. cbv zeta iota. rewrite EP at 1. cbv iota. rewrite S.
+  cbn [fold_left]. change (seg_step [] []) with [[] : str].
+  rewrite fold_seg_plain by exact HF.
+  rewrite last_cons_ne by exact Hne.
+  assert (L : seg_ok (last segs [])).
+  { rewrite Forall_forall in HF. apply HF. now apply last_in. }
+  destruct (seg_ok_not_dots _ L) as [A B]. rewrite A, B. cbn [orb].
+  destruct segs as [|s l]; [contradiction|].
+  change ([[]] ++ s :: l) with (([] : str) :: s :: l).
+  change (join [c_sl] ([] :: s :: l)) with ([] ++ [c_sl] ++ join [c_sl] (s :: l)).
+  cbn [app]. rewrite N.eqb_refl. cbn [tl]. now rewrite EP.
+Qed.
+
+Lemma resolve_path_abs B P segs : clean_path P segs -> resolve_path B P = P.
+Proof.
+  intro C. pose proof (resolve_path_clean P segs C) as R.
+  destruct (clean_path_head P segs C) as (ch & t & E & _).
+  unfold resolve_path in *. rewrite E in *. cbv zeta iota in *.
+  change (c_sl =? c_sl) with true. cbv iota. exact R.
+Qed.
+
+Definition link_ok (ref : str) : Prop := forallb printable ref = true.
+
+Lemma no_qm_path P : forallb path_char P = true -> contains c_qm P = false.
+Proof. apply contains_forallb. reflexivity. Qed.
+Lemma no_hash_path P : forallb path_char P = true -> contains c_hash P = false.
+Proof. apply contains_forallb. reflexivity. Qed.
+Lemma no_hash_query Q : forallb query_char Q = true -> contains c_hash Q = false.
+Proof. apply contains_forallb. reflexivity. Qed.
+
+(* form 1: </path?query> *)
+Theorem resolve_abs_path base P segs Q :
+  clean_path P segs -> forallb path_char P = true -> forallb query_char Q = true ->
+  link_ok (P ++ c_qm :: Q) ->
+  resolve_ref base (P ++ c_qm :: Q) = ROk (mkS (s_scheme base) (s_host base) P Q).
+Proof.
+  intros C HP HQ HL. destruct (clean_path_head P segs C) as (ch & t & E & Hc).
+  unfold resolve_ref, parse_ref. unfold link_ok in HL. fold printable.
+  change (fun c => (33 <=? c) && (c <=? 126)) with printable. rewrite HL. cbn [negb orb].
+  rewrite contains_app. rewrite (no_hash_path P HP). cbn [contains existsb orb].
+  change (existsb (fun d => d =? c_hash) Q) with (contains c_hash Q). rewrite (no_hash_query Q HQ).
+  change (c_qm =? c_hash) with false. cbn [orb].
+  assert (G : get_scheme (P ++ c_qm :: Q) = SNone) by (rewrite E; reflexivity).
+  rewrite G. rewrite cut_app by (now apply no_qm_path).
+  rewrite E. cbn [has_prefix]. change (c_sl =? c_sl) with true. rewrite (N.eqb_sym c_sl ch), Hc. cbn [andb negb].
+  rewrite <- E. rewrite HP, HQ. cbn [andb].
+  cbn [p_scheme p_host p_path p_query]. rewrite (resolve_path_abs _ P segs C). now destruct P.
+Qed.
+
+(* form 2: <?query> -- the path of the request *)
+Theorem resolve_query_only base segs Q :
+  clean_path (s_path base) segs -> forallb query_char Q = true -> link_ok (c_qm :: Q) ->
+  resolve_ref base (c_qm :: Q) = ROk (mkS (s_scheme base) (s_host base) (s_path base) Q).
+Proof.
+  intros C HQ HL. unfold resolve_ref, parse_ref. unfold link_ok in HL.
+  change (fun c => (33 <=? c) && (c <=? 126)) with printable. rewrite HL. cbn [negb orb].
+  cbn [contains existsb]. change (c_qm =? c_hash) with false. cbn [orb].
+  change (existsb (fun d => d =? c_hash) Q) with (contains c_hash Q). rewrite (no_hash_query Q HQ).
+  change (get_scheme (c_qm :: Q)) with SNone. cbn [cut]. rewrite N.eqb_refl.
+  cbn [has_prefix negb andb contains existsb cut fst forallb]. rewrite HQ.
+  cbn [p_scheme p_host p_path p_query].
+  now rewrite (resolve_path_clean _ segs C).
+Qed.
